@@ -474,8 +474,36 @@ func (c *Ctx) checkControlRoundTrip(refs map[string]func(val map[string]bool) st
 			nTrips++
 			bad := ""
 			detail := ""
+			// value ranges narrower than the field types: the encode path's own conditions, and for the Behera control
+			// the constructor's guarantee error <= 8 (rule C14-behera)
+			narrow := map[string][2]float64{}
+			for a, b := range v.Val {
+				if m := regexp.MustCompile(`^<\((\$0\.[A-Za-z]+),0\)$`).FindStringSubmatch(a); m != nil {
+					if r, ok := intRanges[fieldType[m[1]]]; ok {
+						if b {
+							r[1] = -1
+						} else {
+							r[0] = 0
+						}
+						narrow[m[1]] = r
+					}
+				}
+			}
+			if typ == "ControlBeheraPasswordPolicy" {
+				if r, ok := narrow["$0.error"]; ok && r[1] > 8 {
+					r[1] = 8
+					narrow["$0.error"] = r
+				}
+			}
 			for _, p := range paths {
 				root := p.State.(*wnode)
+				// branches the success path takes without a decision: the decoder accepts the encoder's tree only
+				// if they go that way for every field value
+				for _, fb := range p.Forced {
+					if why := forcedHolds(fb, root, fieldType, narrow); why != "" {
+						bad = sprintf("decodeControl rejects (some of) the packets Encode produces: the branch at %s %s", fb.Pos, why)
+					}
+				}
 				r := p.Res
 				if r.undec != "" || k(r) == nil || len(r.retExpr) < 1 {
 					bad = "a success path cannot be interpreted: " + r.undec
@@ -575,4 +603,172 @@ func valueFixedByPath(field, got string, val map[string]bool, typ string) bool {
 		}
 	}
 	return false
+}
+
+var (
+	reErrNil   = regexp.MustCompile(`^==\((.*)#1,nil(?::[^)]*)?\)$`)
+	reCmpConst = regexp.MustCompile(`^(<|<=|>|>=|==)\((.*),(-?\d+)\)$`)
+	reCmpCnstL = regexp.MustCompile(`^(<|<=|>|>=|==)\((-?\d+),(.*)\)$`)
+)
+
+// forcedHolds decides a branch the guided decode walk was forced through
+// (the other side only returns errors): "" when the branch goes that way for
+// every value the encoder can have put into the tree, otherwise the reason.
+func forcedHolds(fb forcedBranch, root *wnode, fieldType map[string]string, narrow map[string][2]float64) string {
+	if fb.Oracle >= 0 {
+		return "goes the other way for this tree (" + fb.Cond + ")"
+	}
+	cs := fb.Cond
+	want := fb.Succ == 0 // the condition as written must evaluate to this
+	if cs == "true" || cs == "false" {
+		if (cs == "true") == want {
+			return ""
+		}
+		return "goes the other way (constant " + cs + ")"
+	}
+	for strings.HasPrefix(cs, "!") && !strings.HasPrefix(cs, "!=(") {
+		cs = cs[1:]
+		want = !want
+	}
+	if strings.HasPrefix(cs, "!=(") {
+		cs = "==(" + cs[3:]
+		want = !want
+	}
+	back, notes := backSubstitute(cs, root)
+	if len(notes) > 0 {
+		return "tests something the encoder does not produce (" + strings.Join(notes, "; ") + ")"
+	}
+	back = dropIdentityConvs(back, fieldType)
+	// the error of a recognised inverse applied to what the encoder wrote
+	if m := reErrNil.FindStringSubmatch(back); m != nil {
+		x := m[1]
+		switch {
+		case strings.HasPrefix(x, "github.com/go-asn1-ber/asn1-ber.DecodePacketErr(") && want:
+			// re-parse of a primitive in which the encoder nested an encoding
+			if mm := reDataBytes.FindStringSubmatch(fb.Cond); mm != nil {
+				if n := root.resolve(mm[1]); n != nil && len(n.hidden) > 0 {
+					return ""
+				}
+			}
+			return "re-parses bytes in which the encoder nested no encoding"
+		case strings.HasPrefix(x, "github.com/go-asn1-ber/asn1-ber.ParseInt64(intenc(") && want:
+			return "" // intenc is at most 8 bytes: ParseInt64 succeeds
+		case strings.HasPrefix(x, "conv<int64>(") && want:
+			return "" // ParseInt64(intenc(v)) already inverted
+		case regexp.MustCompile(`^\$0\.[A-Za-z]+$`).MatchString(x) && want:
+			return "" // ParseInt(FormatInt(v)) already inverted
+		}
+		return "depends on an error the round trip cannot exclude (" + back + ")"
+	}
+	var op, e string
+	var k int64
+	if m := reCmpConst.FindStringSubmatch(back); m != nil {
+		op, e = m[1], m[2]
+		k, _ = strconv.ParseInt(m[3], 10, 64)
+	} else if m := reCmpCnstL.FindStringSubmatch(back); m != nil {
+		op, e = map[string]string{"<": ">", "<=": ">=", ">": "<", ">=": "<=", "==": "=="}[m[1]], m[3]
+		k, _ = strconv.ParseInt(m[2], 10, 64)
+	} else {
+		return "is not decided by the encoder's tree (" + back + ")"
+	}
+	lo, hi, ok := rangeOfExpr(e, fieldType, narrow)
+	if !ok {
+		return "is not decided by the encoder's tree (" + back + ")"
+	}
+	always, never := false, false
+	switch op {
+	case "<":
+		always, never = hi < float64(k), lo >= float64(k)
+	case "<=":
+		always, never = hi <= float64(k), lo > float64(k)
+	case ">":
+		always, never = lo > float64(k), hi <= float64(k)
+	case ">=":
+		always, never = lo >= float64(k), hi < float64(k)
+	case "==":
+		always, never = lo == hi && lo == float64(k), float64(k) < lo || float64(k) > hi
+	}
+	if (want && always) || (!want && never) {
+		return ""
+	}
+	return sprintf("rejects field values the control can hold: it needs %s to be %v, but %s ranges over [%.0f, %.0f]", back, want, e, lo, hi)
+}
+
+var intRanges = map[string][2]float64{
+	"int8": {-128, 127}, "uint8": {0, 255}, "int16": {-32768, 32767}, "uint16": {0, 65535},
+	"int32": {-2147483648, 2147483647}, "uint32": {0, 4294967295},
+	"int": {-9223372036854775808, 9223372036854775807}, "int64": {-9223372036854775808, 9223372036854775807},
+	"uint": {0, 18446744073709551615}, "uint64": {0, 18446744073709551615},
+}
+
+var reConvOf = regexp.MustCompile(`^conv<(\w+)>\((.*)\)$`)
+
+// rangeOfExpr: value range of `$0.F`, `len(intenc(...))`, or conversions of those.
+func rangeOfExpr(e string, fieldType map[string]string, narrow map[string][2]float64) (float64, float64, bool) {
+	if r, ok := narrow[e]; ok {
+		return r[0], r[1], true
+	}
+	// first byte of the minimal encoding of a value in 0..127 is the value
+	if strings.HasPrefix(e, "intenc(") && strings.HasSuffix(e, ")[0]") {
+		if lo, hi, ok := rangeOfExpr(e[len("intenc("):len(e)-len(")[0]")], fieldType, narrow); ok && lo >= 0 && hi <= 127 {
+			return lo, hi, true
+		}
+		return 0, 255, true
+	}
+	if t, ok := fieldType[e]; ok {
+		if r, ok := intRanges[t]; ok {
+			return r[0], r[1], true
+		}
+		return 0, 0, false
+	}
+	if strings.HasPrefix(e, "len(intenc(") && strings.HasSuffix(e, "))") {
+		inner := e[len("len(intenc(") : len(e)-2]
+		if lo, hi, ok := rangeOfExpr(inner, fieldType, narrow); ok {
+			// two's complement minimal encoding
+			n := func(v float64) float64 {
+				for i := 1; i < 8; i++ {
+					lim := float64(int64(1) << uint(8*i-1))
+					if v >= -lim && v < lim {
+						return float64(i)
+					}
+				}
+				return 8
+			}
+			a, b := n(lo), n(hi)
+			if lo <= 0 && hi >= 0 {
+				return 1, maxf(a, b), true
+			}
+			return minf(a, b), maxf(a, b), true
+		}
+		return 1, 8, true
+	}
+	if m := reConvOf.FindStringSubmatch(e); m != nil {
+		r, okT := intRanges[m[1]]
+		lo, hi, ok := rangeOfExpr(m[2], fieldType, narrow)
+		if !okT {
+			return 0, 0, false
+		}
+		if ok && lo >= r[0] && hi <= r[1] {
+			return lo, hi, true
+		}
+		return r[0], r[1], true
+	}
+	if k, err := strconv.ParseInt(e, 10, 64); err == nil {
+		return float64(k), float64(k), true
+	}
+	return 0, 0, false
+}
+
+func minf(a, b float64) float64 {
+	if a < b {
+		return a
+	}
+	return b
+}
+
+func maxf(a, b float64) float64 {
+	if a > b {
+		return a
+	}
+	return b
 }
